@@ -56,9 +56,12 @@ class Noh(ExactSolver):
                            self.rho0 * ((self.gamma + 1) / (self.gamma - 1)) ** \
                            self.geometry * np.ones(shape=r.shape),
                            self.rho0 * (1 + abs(self.u0) * t / r) ** (self.geometry - 1))
+        # post-shock pressure from the gamma-law EOS, p = (gamma - 1) rho e
+        shocked_pressure = (self.gamma - 1) * self.rho0 * \
+            ((self.gamma + 1) / (self.gamma - 1)) ** self.geometry * \
+            (self.u0 ** 2) / 2.0
         pressure = np.where(r < shock_location,
-                            (self.rho0 * self.u0 ** 2) * 4.0 ** self.geometry / 3.0 * \
-                            np.ones(shape=r.shape),
+                            shocked_pressure * np.ones(shape=r.shape),
                             np.zeros(shape=r.shape))
         sie = np.where(r < shock_location,
                       (self.u0 ** 2) * (1.0 / 2.0) * np.ones(shape=r.shape),
@@ -78,8 +81,7 @@ class Noh(ExactSolver):
                                     density=(self.rho0 * ((self.gamma + 1) / \
                                     (self.gamma - 1)) ** self.geometry,
                                     self.rho0 * 4.0 ** (self.geometry - 1)),
-                                    pressure=((self.rho0 * self.u0 ** 2) * \
-                                              4.0 ** self.geometry / 3.0, 0),
+                                    pressure=(shocked_pressure, 0),
                                     sie=( (self.u0 ** 2)* 1.0 / 2.0, 0),
                                     velocity=(0, -1))
                                     ]
